@@ -300,6 +300,27 @@ Theorem c05_fetch_sources : forall http has_cache offline whole origin,
 Proof. intros. split; [intro s; apply fetch_sources | apply fetch_offline]. Qed.
 Print Assumptions c05_fetch_sources.
 
+(* ... stated once explicitly: end to end whatever the source of the bytes — the origin over a
+   local path or http, a whole .apk pre-populated in the cache directory, online or OFFLINE —
+   under the hypotheses of c05_end_to_end: the control and data sections are the ones the
+   index entry designates, what is installed was hashed, and it is the install of the
+   designated data bytes' own entries *)
+Theorem c05_end_to_end_every_source : forall sha1 sha256 b64 first_name ctl_view gunzip untar,
+  (forall a b, sha1 a = sha1 b -> a = b) ->
+  (forall a b, hex (sha256 a) = hex (sha256 b) -> a = b) ->
+  forall http offline whole origin m k h x k' m' lazy out gc cg dh gd,
+  memo_inv sha1 sha256 b64 ctl_view gunzip untar m -> opt_cache_ok sha1 sha256 gunzip untar k ->
+  expand_package sha1 sha256 b64 first_name ctl_view gunzip untar m k h
+    (fetch http (match k with Some _ => true | None => false end) offline whole origin) = (XOk x, k', m') ->
+  install lazy x = Some out ->
+  h_sum b64 h = Some (sha1 gc) -> mk_ctl ctl_view gc = Some cg ->
+  In dh (c_datahash cg) -> dh <> "" -> dh = hex (sha256 gd) ->
+  (x_ctl x = cg /\ x_ctl_file x = gc /\ d_raw (x_dat x) = gd) /\
+  Installed_hashed sha1 x out /\
+  (exists fs, dat_view gunzip untar gd = Some fs /\ d_files (x_dat x) = fs /\ install_files lazy [] (data_section fs) = Some out).
+Proof. exact end_to_end_every_source. Qed.
+Print Assumptions c05_end_to_end_every_source.
+
 (* (9) what is installed was hashed: under the chain, every file either install path writes
    holds the body of a REGULAR entry of the data section that agrees with its recorded
    checksum — entries of any other type (contiguous files, devices, fifos, unknown flags),
